@@ -35,13 +35,19 @@ def dataclass_fields(ci: ClassInfo) -> dict[str, tuple[ast.expr, ast.expr | None
 #     if victim is not None: hook(victim)
 # it contains the infeasible path "skip the del, then take the `victim is not None` branch".  For
 # dominance questions ("is the hook always preceded by the removal?") we explore the product of CFG
-# nodes with a three-valued nullness environment (N = None, NN = not None, ? = unknown) of the local
-# names that are compared with None somewhere in the function.
+# nodes with an abstract environment (which of None / falsy / truthy each local may hold) of the local
+# names that are tested (for None-ness or truth) somewhere in the function.
 
-N, NN, UNK = "N", "NN", "?"
+NONE, FALSY, TRUTHY = "none", "falsy", "truthy"  # falsy = falsy but not None
+ANY = frozenset({NONE, FALSY, TRUTHY})
+NOT_NONE = frozenset({FALSY, TRUTHY})
 
 
 class NullFlow:
+    """Reachability over (CFG node x abstract environment).  Each tracked local is abstracted by the
+    subset of {None, falsy-not-None, truthy} it may hold; `x is None`, `x is not None`, `x`, `not x`
+    and and/or combinations refine it on their outgoing edges; an empty refinement = infeasible edge."""
+
     def __init__(self, fi: FunctionInfo) -> None:
         self.fi = fi
         self.cfg: CFG = cfg_of(fi.node)
@@ -51,17 +57,12 @@ class NullFlow:
     def _tracked_names(self) -> set[str]:
         names: set[str] = set()
         for n in walk_scope(self.fi.node):
-            if isinstance(n, (ast.If, ast.While, ast.IfExp)):
+            if isinstance(n, (ast.If, ast.While)):
                 for sub in ast.walk(n.test):
-                    if isinstance(sub, ast.Compare) and len(sub.ops) == 1 and isinstance(sub.ops[0], (ast.Is, ast.IsNot)) and isinstance(sub.left, ast.Name):
-                        c = sub.comparators[0]
-                        if isinstance(c, ast.Constant) and c.value is None:
-                            names.add(sub.left.id)
-                    elif isinstance(sub, ast.Name):
+                    if isinstance(sub, ast.Name):
                         names.add(sub.id)
-        # names copied into tracked names
         changed = True
-        while changed:
+        while changed:  # names copied into tracked names
             changed = False
             for n in walk_scope(self.fi.node):
                 if isinstance(n, ast.Assign) and isinstance(n.value, ast.Name):
@@ -72,18 +73,27 @@ class NullFlow:
         return names
 
     # -- abstract values
-    def _val(self, e: ast.expr | None, env: dict[str, str]) -> str:
+    def _val(self, e: ast.expr | None, env: dict[str, frozenset]) -> frozenset:
         if e is None:
-            return UNK
+            return ANY
         if isinstance(e, ast.Constant):
-            return N if e.value is None else NN
+            if e.value is None:
+                return frozenset({NONE})
+            return frozenset({TRUTHY if e.value else FALSY})
         if isinstance(e, ast.Name):
-            return env.get(e.id, UNK)
-        if isinstance(e, (ast.List, ast.Tuple, ast.Dict, ast.Set, ast.ListComp, ast.SetComp, ast.DictComp, ast.JoinedStr, ast.Lambda)):
-            return NN
-        return UNK
+            return env.get(e.id, ANY)
+        if isinstance(e, (ast.Compare, ast.UnaryOp)) and not (isinstance(e, ast.UnaryOp) and not isinstance(e.op, ast.Not)):
+            return NOT_NONE  # a bool
+        if isinstance(e, (ast.List, ast.Tuple, ast.Dict, ast.Set)):
+            n = len(e.keys) if isinstance(e, ast.Dict) else len(e.elts)
+            return frozenset({TRUTHY}) if n else frozenset({FALSY})
+        if isinstance(e, (ast.ListComp, ast.SetComp, ast.DictComp, ast.JoinedStr)):
+            return NOT_NONE
+        if isinstance(e, ast.Lambda):
+            return frozenset({TRUTHY})
+        return ANY
 
-    def _assign(self, st: ast.AST, env: dict[str, str]) -> dict[str, str]:
+    def _assign(self, st: ast.AST, env: dict[str, frozenset]) -> dict[str, frozenset]:
         tgts: list[ast.expr] = []
         val: ast.expr | None = None
         if isinstance(st, ast.Assign):
@@ -92,70 +102,75 @@ class NullFlow:
             tgts, val = [st.target], st.value
         elif isinstance(st, ast.AugAssign):
             tgts, val = [st.target], None
-        else:
-            # walrus / with-as / anything else that stores a tracked name: unknown afterwards
-            stored = {n.id for n in walk_scope(st) if isinstance(n, ast.Name) and isinstance(n.ctx, ast.Store) and n.id in self.tracked} if isinstance(st, (ast.Expr, ast.Return, ast.Delete, ast.Assert)) else set()
-            if not stored:
-                return env
-            env = dict(env)
-            for s in stored:
-                env[s] = UNK
-            return env
-        new = dict(env)
+        new = None
         for t in tgts:
             if isinstance(t, ast.Name):
                 if t.id in self.tracked:
+                    new = new if new is not None else dict(env)
                     new[t.id] = self._val(val, env)
             elif isinstance(t, (ast.Tuple, ast.List)):
                 for x in ast.walk(t):
                     if isinstance(x, ast.Name) and x.id in self.tracked:
-                        new[x.id] = UNK
-        return new
+                        new = new if new is not None else dict(env)
+                        new[x.id] = ANY
+        # walrus targets anywhere in the statement
+        for n in walk_scope(st) if isinstance(st, ast.stmt) else []:
+            if isinstance(n, ast.NamedExpr) and n.target.id in self.tracked:
+                new = new if new is not None else dict(env)
+                new[n.target.id] = ANY
+        return env if new is None else new
 
     # -- tests:  -> list of (label, env)
-    def _test(self, e: ast.expr, env: dict[str, str]) -> list[tuple[str, dict[str, str]]]:
+    def _test(self, e: ast.expr, env: dict[str, frozenset]) -> list[tuple[str, dict[str, frozenset]]]:
         if isinstance(e, ast.UnaryOp) and isinstance(e.op, ast.Not):
             return [("F" if lab == "T" else "T", en) for lab, en in self._test(e.operand, env)]
         if isinstance(e, ast.Compare) and len(e.ops) == 1 and isinstance(e.left, ast.Name) and isinstance(e.comparators[0], ast.Constant) and e.comparators[0].value is None and isinstance(e.ops[0], (ast.Is, ast.IsNot)):
             x = e.left.id
-            v = env.get(x, UNK)
+            v = env.get(x, ANY)
             is_none_lab, not_none_lab = ("T", "F") if isinstance(e.ops[0], ast.Is) else ("F", "T")
             out = []
-            if v in (N, UNK):
-                out.append((is_none_lab, {**env, x: N}))
-            if v in (NN, UNK):
-                out.append((not_none_lab, {**env, x: NN}))
+            if v & {NONE}:
+                out.append((is_none_lab, {**env, x: v & {NONE}}))
+            if v & NOT_NONE:
+                out.append((not_none_lab, {**env, x: v & NOT_NONE}))
             return out
         if isinstance(e, ast.Name):
-            v = env.get(e.id, UNK)
-            if v == N:
-                return [("F", env)]
-            return [("T", {**env, e.id: NN}), ("F", env)]
+            v = env.get(e.id, ANY)
+            out = []
+            if v & {TRUTHY}:
+                out.append(("T", {**env, e.id: v & {TRUTHY}}))
+            if v & {NONE, FALSY}:
+                out.append(("F", {**env, e.id: v & {NONE, FALSY}}))
+            return out
+        if isinstance(e, ast.Constant):
+            return [("T" if e.value else "F", env)]
         if isinstance(e, ast.BoolOp):
             conj = isinstance(e.op, ast.And)
             decisive, other = ("F", "T") if conj else ("T", "F")
-            # `other` outcome needs every operand to yield `other`; fold the refinements
+            # `other` outcome needs every operand to yield `other`; fold the refinements.
+            # `decisive` outcome: operand i yields `decisive` after operands < i yielded `other`.
+            out: list[tuple[str, dict[str, frozenset]]] = []
             envs = [env]
             for v in e.values:
                 nxt = []
                 for en in envs:
-                    nxt += [en2 for lab, en2 in self._test(v, en) if lab == other]
+                    for lab, en2 in self._test(v, en):
+                        if lab == other:
+                            nxt.append(en2)
+                        else:
+                            out.append((decisive, en2))
                 envs = nxt
                 if not envs:
                     break
-            out = [(other, en) for en in envs]
-            # `decisive` outcome is possible as soon as one operand can yield it
-            if any(lab == decisive for v in e.values for lab, _ in self._test(v, env)):
-                out.append((decisive, env))
+            out += [(other, en) for en in envs]
             return out
         return [("T", env), ("F", env)]
 
     # -- the query
     def reach(self, starts: Iterable[int], avoid: set[int] = frozenset(), *, include_start: bool = True) -> set[int]:  # type: ignore[assignment]
-        cfg = self.cfg
         seen: set[tuple[int, tuple]] = set()
         out: set[int] = set()
-        stack: list[tuple[int, dict[str, str]]] = []
+        stack: list[tuple[int, dict[str, frozenset]]] = []
         for s in starts:
             if include_start:
                 if s not in avoid:
@@ -166,7 +181,7 @@ class NullFlow:
                         stack.append(item)
         while stack:
             u, env = stack.pop()
-            key = (u, tuple(sorted(env.items())))
+            key = (u, tuple(sorted((k, tuple(sorted(v))) for k, v in env.items() if v != ANY)))
             if key in seen:
                 continue
             seen.add(key)
@@ -178,10 +193,19 @@ class NullFlow:
                     stack.append((v, env2))
         return out
 
-    def _succ(self, u: int, env: dict[str, str]) -> list[tuple[int, dict[str, str]]]:
+    def _kill(self, target: ast.AST, env: dict[str, frozenset]) -> dict[str, frozenset]:
+        hit = [x.id for x in ast.walk(target) if isinstance(x, ast.Name) and x.id in self.tracked]
+        if not hit:
+            return env
+        en = dict(env)
+        for h in hit:
+            en[h] = ANY
+        return en
+
+    def _succ(self, u: int, env: dict[str, frozenset]) -> list[tuple[int, dict[str, frozenset]]]:
         cfg = self.cfg
         node = cfg.nodes[u]
-        out: list[tuple[int, dict[str, str]]] = []
+        out: list[tuple[int, dict[str, frozenset]]] = []
         if node.kind == "test" and isinstance(node.stmt, (ast.If, ast.While)):
             outcomes = self._test(node.stmt.test, env)
             for v in cfg.succ[u]:
@@ -193,28 +217,19 @@ class NullFlow:
             return out
         if node.kind == "loop" and isinstance(node.stmt, (ast.For, ast.AsyncFor)):
             for v in cfg.succ[u]:
-                if cfg.label.get((u, v)) == "T":
-                    en = dict(env)
-                    for x in ast.walk(node.stmt.target):
-                        if isinstance(x, ast.Name) and x.id in self.tracked:
-                            en[x.id] = UNK
-                    out.append((v, en))
-                else:
-                    out.append((v, env))
+                out.append((v, self._kill(node.stmt.target, env) if cfg.label.get((u, v)) == "T" else env))
             return out
-        if node.kind == "done" and node.stmt is not None and not isinstance(node.stmt, (ast.With, ast.AsyncWith)):
+        if node.kind == "done" and isinstance(node.stmt, (ast.With, ast.AsyncWith)):
+            en = env
+            for it in node.stmt.items:
+                if it.optional_vars is not None:
+                    en = self._kill(it.optional_vars, en)
+            return [(v, en) for v in cfg.succ[u]]
+        if node.kind == "done" and node.stmt is not None:
             en = self._assign(node.stmt, env)
             for v in cfg.succ[u]:
                 out.append((v, env if cfg.label.get((u, v)) == "exc" else en))
             return out
-        if node.kind == "done" and isinstance(node.stmt, (ast.With, ast.AsyncWith)):
-            en = dict(env)
-            for it in node.stmt.items:
-                if it.optional_vars is not None:
-                    for x in ast.walk(it.optional_vars):
-                        if isinstance(x, ast.Name) and x.id in self.tracked:
-                            en[x.id] = UNK
-            return [(v, en) for v in cfg.succ[u]]
         return [(v, env) for v in cfg.succ[u]]
 
     def dominated(self, target: ast.AST, guards: list[ast.AST]) -> bool:
